@@ -337,3 +337,61 @@ func VerifC07Snapshot() {
 	}
 	zz.Reach("C07/snapshot/done")
 }
+
+// vBig returns n zero bytes with arbitrary first and last bytes (no per-byte loop: the
+// engine keeps such buffers sparse).
+func vBig(name string, n int) []byte {
+	b := make([]byte, n)
+	b[0] = zz.NondetU8(name + ".first")
+	b[n-1] = zz.NondetU8(name + ".last")
+	return b
+}
+
+// VerifC07Growth: entries that cross the buffer growth steps (10 MB step, doubling): a value
+// larger than the next step appended to a non-empty buffer, and a 5..10 MB value appended to a
+// partly filled pre-sized buffer. Round trip through the custom reader.
+func VerifC07Growth() {
+	shape := zz.Choice("shape", 3)
+	var d *snapshot.DBI
+	var big []byte
+	pre := 0
+	switch shape {
+	case 0: // named DBI, one 12 MB value
+		d = snapshot.NewDBI()
+		d.SetName("d")
+		big = vBig("big", 12<<20)
+	case 1: // pre-sized 4 MB buffer partly filled, then a 7 MB value
+		d = snapshot.NewDBISize(4 << 20)
+		d.SetName("d")
+		d.Append(snapshot.KV{Key: []byte("a"), Value: vBig("fill", 3<<20+(1<<19)), TimestampNano: 1})
+		pre = 1
+		big = vBig("big", 7<<20)
+	default: // two 6 MB values: second growth (doubling)
+		d = snapshot.NewDBI()
+		d.SetName("d")
+		d.Append(snapshot.KV{Key: []byte("a"), Value: vBig("fill", 6<<20), TimestampNano: 1})
+		pre = 1
+		big = vBig("big", 6<<20)
+	}
+	kv := snapshot.KV{Key: []byte("k"), Value: big, TimestampNano: zz.NondetU64("ts"), Flags: 1}
+	d.Append(kv)
+	d.Append(snapshot.KV{Key: []byte("z"), TimestampNano: 3})
+	data := d.Marshal()
+	d2, err := snapshot.NewDBIFromData(data)
+	zz.Assert(err == nil, "C07/growth/reader-accepts")
+	if err != nil {
+		return
+	}
+	got, err := vAll(d2)
+	zz.Assert(err == nil && len(got) == pre+2, "C07/growth/entry-count")
+	if len(got) == pre+2 {
+		g := got[pre]
+		zz.Assert(bytes.Equal(g.Key, kv.Key) && g.TimestampNano == kv.TimestampNano && g.Flags == 1, "C07/growth/fields")
+		zz.Assert(len(g.Value) == len(big), "C07/growth/value-length")
+		if len(g.Value) == len(big) {
+			zz.Assert(g.Value[0] == big[0] && g.Value[len(big)-1] == big[len(big)-1], "C07/growth/value-ends")
+		}
+		zz.Assert(bytes.Equal(got[pre+1].Key, []byte("z")), "C07/growth/following-entry")
+	}
+	zz.Reach("C07/growth/done")
+}
